@@ -32,7 +32,7 @@ PROBES = ['tie_in_chi2', 'nan_present', 'inf_present', 'zero_length_result', 'ke
 
 def budgets(tier):
     if tier == 'quick':
-        return {'runs': 80000, 'max_wall': 110, 'chunk': 400}
+        return {'runs': 50000, 'max_wall': 110, 'chunk': 400}
     return {'runs': 1500000, 'max_wall': 1500, 'chunk': 2000}
 
 
@@ -68,6 +68,7 @@ def generate(rng, tier, idx):
         v[rng.randrange(nw)] = rng.choice([1, 4])
         sc['valid'] = v
         sc['with_fluxes'] = rng.random() < 0.5
+        sc['valid_as'] = rng.choice(['list', 'list', 'float64', 'float32', 'uint8', '>i4', 'tuple'])     # how the flags are held
     steps = []
     for _ in range(rng.randint(1, 5)):
         op = rng.choice(['keep', 'keep', 'keep', 'keep', 'pickle', 'file', 'file_pair', 'flags', 'bad_assign', 'sibling'] + (['consumer', 'consumer', 'consumer'] if real else []))
@@ -140,7 +141,8 @@ def _build_synthetic(sc):
     s.x = 0.
     s.y = 0.
     nw = len(sc['valid'])
-    s.valid = list(sc['valid'])
+    va = sc.get('valid_as', 'list')
+    s.valid = list(sc['valid']) if va == 'list' else (tuple(sc['valid']) if va == 'tuple' else np.array(sc['valid'], dtype=va))
     s.flux = [1.] * nw
     s.error = [.1] * nw
     info = pipe.FitInfo(s)
